@@ -1,6 +1,6 @@
 From Coq Require Import Extraction ExtrOcamlBasic.
 From Common Require Import Conv.
-From C08 Require Import Model ModelCD ModelLL ModelSub ModelSub2 ModelFL.
+From C08 Require Import Model ModelCD ModelLL ModelSub ModelSub2 ModelFL ModelGDEF.
 Extraction "c08_model.ml" conv_anchor M_cov_read M_cov_encode M_cov_encode_len
   M_cd_append M_cd_append_len M_cd_read
   M_ll_encode M_ll_read M_find_ext
@@ -9,4 +9,5 @@ Extraction "c08_model.ml" conv_anchor M_cov_read M_cov_encode M_cov_encode_len
   M_gsubseq_len M_gsubseq_encode M_gsub41_len M_gsub41_encode M_gpos11_len M_gpos11_encode M_gpos12_len M_gpos12_encode
   M_sub_read as_table S_cov_table
   M_fl_encode M_fl_read
-  M_gpos21_len M_gpos21_encode M_sub_read2.
+  M_gpos21_len M_gpos21_encode M_sub_read2
+  M_gdef_encode M_gdef_read.
